@@ -3,7 +3,7 @@ import Verif.Model.JsPrint
 /-!
 # C16 — the ES2020 gate in the model of `optimizeCondExpr` (`Verif.Model.JsOpt.optCond`)
 
-`nn e` = the expression uses neither `??` nor `??=`.  With `ver2020 = false` (`minVersion(2020)` fails) every rewrite of
+`nn e` = the expression uses neither `??`/`??=` nor an optional chain `?.` (`E.opt`).  With `ver2020 = false` (`minVersion(2020)` fails) every rewrite of
 `optimizeCondExpr` — normalisation of the condition, `c?x:y → c||y`, call merging, boolean bodies, De Morgan, nested
 conditionals, comma conditions — maps nullish-free parts to a nullish-free result.  Core Lean only.
 -/
@@ -12,7 +12,7 @@ open Verif.Spec.JsSyntax Verif.Model.JsAst Verif.Model.JsOpt
 open Verif.Spec.JsSyntax.E
 
 mutual
-/-- the expression contains no `??` / `??=` operator -/
+/-- the expression uses no ES2020 syntax: no `??` / `??=` operator and no optional chain `a?.b` -/
 def nn : E → Bool
   | var _ => true
   | lit _ => true
@@ -24,6 +24,7 @@ def nn : E → Bool
   | dot x _ => nn x
   | index x y => nn x && nn y
   | group x => nn x
+  | opt _ _ => false   -- `a?.b`: ES2020
 def nnL : List E → Bool
   | [] => true
   | e :: r => nn e && nnL r
